@@ -418,6 +418,18 @@ func Explore(fn *ssa.Function, b *ssa.BasicBlock, idx int, pred *ssa.BasicBlock,
 				}
 			}
 		}
+		if st.Visit[b] > 1 {
+			for _, ins := range b.Instrs {
+				if v, ok := ins.(ssa.Value); ok {
+					ptr := fmt.Sprintf("%p", v)
+					for k := range st.V {
+						if ks, ok := k.(string); ok && strings.HasPrefix(ks, "k:") && strings.Contains(ks, ptr) {
+							delete(st.V, k)
+						}
+					}
+				}
+			}
+		}
 		for phi, v := range phis {
 			st.V[phi] = v
 		}
@@ -657,7 +669,72 @@ func (st *State) decideCond(cond ssa.Value) Boolv {
 	if v := st.Eval(cond); v.B != BUnk {
 		return v.B
 	}
-	return st.decide(cond)
+	if b := st.decide(cond); b != BUnk {
+		return b
+	}
+	// a structurally identical pure comparison was decided earlier on this path
+	if key, neg, ok := st.cmpKey(cond); ok {
+		if v, ok := st.V[key]; ok && v.B != BUnk {
+			if neg {
+				return b2(v.B != BTrue)
+			}
+			return v.B
+		}
+	}
+	return BUnk
+}
+
+// canon names a pure expression by its structure, so that the separate instructions go/ssa
+// emits for repeated sub-expressions (no CSE) are recognised as the same value.
+func (st *State) canon(v ssa.Value, depth int) string {
+	v = st.Resolve(v)
+	switch x := v.(type) {
+	case *ssa.Const:
+		if x.Value == nil {
+			return "nil"
+		}
+		return "c" + x.Value.ExactString()
+	case *ssa.BinOp:
+		if depth < 5 {
+			return "(" + st.canon(x.X, depth+1) + x.Op.String() + st.canon(x.Y, depth+1) + ")"
+		}
+	case *ssa.Convert:
+		if depth < 5 {
+			return "conv(" + st.canon(x.X, depth+1) + ")"
+		}
+	case *ssa.ChangeType:
+		return st.canon(x.X, depth)
+	case *ssa.Call:
+		if callee(x) == "builtin:len" && depth < 5 {
+			return "len(" + st.canon(x.Call.Args[0], depth+1) + ")"
+		}
+	}
+	return fmt.Sprintf("%p", v)
+}
+
+// cmpKey normalises a comparison to (== | <) with an optional negation.
+func (st *State) cmpKey(cond ssa.Value) (key string, neg bool, ok bool) {
+	c, isBin := cond.(*ssa.BinOp)
+	if !isBin {
+		return "", false, false
+	}
+	x, y := st.canon(c.X, 0), st.canon(c.Y, 0)
+	switch c.Op {
+	case token.EQL, token.NEQ:
+		if x > y {
+			x, y = y, x
+		}
+		return "k:" + x + "==" + y, c.Op == token.NEQ, true
+	case token.LSS:
+		return "k:" + x + "<" + y, false, true
+	case token.GEQ:
+		return "k:" + x + "<" + y, true, true
+	case token.GTR:
+		return "k:" + y + "<" + x, false, true
+	case token.LEQ:
+		return "k:" + y + "<" + x, true, true
+	}
+	return "", false, false
 }
 
 // decide evaluates a branch condition without looking at what was assumed for it.
@@ -750,6 +827,9 @@ func (st *State) decide(cond ssa.Value) Boolv {
 // assume refines the state with the outcome of an undecided condition.
 func (st *State) assume(cond ssa.Value, outcome bool) {
 	st.V[cond] = Val{B: b2(outcome)}
+	if key, neg, ok := st.cmpKey(cond); ok {
+		st.V[key] = Val{B: b2(outcome != neg)}
+	}
 	switch c := cond.(type) {
 	case *ssa.BinOp:
 		if (c.Op == token.EQL || c.Op == token.NEQ) && (isNilConst(c.X) || isNilConst(c.Y)) {
@@ -857,4 +937,25 @@ func selectCaseEdge(sel *ssa.Select, k int) (from, to *ssa.BasicBlock) {
 func isCtxDone(v ssa.Value) bool {
 	c, ok := v.(*ssa.Call)
 	return ok && callee(c) == "(context.Context).Done"
+}
+
+// sameReceiverCallee returns the callee of call when it is a method declared on the same
+// receiver type as fn (a helper extracted from fn), so that path rules follow it.
+func (c *Ctx) sameReceiverCallee(fn *ssa.Function, call *ssa.Call) *ssa.Function {
+	cal := c.staticFn(call)
+	if cal == nil || cal == fn || cal.Parent() != nil || len(cal.Blocks) > 60 {
+		return nil
+	}
+	top := fn
+	for top.Parent() != nil {
+		top = top.Parent()
+	}
+	r1, r2 := top.Signature.Recv(), cal.Signature.Recv()
+	if r1 == nil || r2 == nil {
+		return nil
+	}
+	if namedOf(r1.Type()) == nil || namedOf(r1.Type()) != namedOf(r2.Type()) {
+		return nil
+	}
+	return cal
 }
